@@ -27,6 +27,41 @@ CLAIMS = {
              "agreement with the Rust code is established on the cases of each run only. Validation of inserted text is C15.",
         technique="Lean 4 proof (list lemmas, omega) + differential correspondence against the hand-written model",
         ref="DESIGN.md section 6 C16"),
+    "C02": dict(
+        text="Kernel-checked soundness of the parser model for all strings: whatever is reported as a document is a "
+             "derivation of the context-free reading of the grammar TRANSLATED FROM THE RUST SOURCE on this run, flattens to "
+             "exactly the consumed text, has a single root followed only by Misc, matching start/end tag names, character "
+             "data free of '<', '&' and ']]>', no reserved PI target, and an element tree satisfying Unique Att Spec, Legal "
+             "Character and Entity Declared. Tie: translator + outcome class of the real from_raw on hand-kept ill-formed "
+             "documents, every targeted edit and seeded token-level edits of generated documents, against the model; monitor: "
+             "the code must not report a complete parse where the specification model (recorded findings repaired, "
+             "entity-usage constraints added) rejects.",
+        note="Trusted: Lean kernel; Peg.lean's re-implementation of nom's combinators; tools/translate.py; the hand-written "
+             "abstraction CST->items (Infoset.lean) and checks (XmlDoc.lean), tied by `accept`/`parse`. Constraints not yet "
+             "stated as theorems: '--' in comments, '<' in attribute-value literals (grammar classes, covered by the tie). "
+             "Known findings name-lax, entity-wfc.",
+        technique="Lean 4 proof (generic PEG soundness by induction on fuel, inversion on the generated grammar) + translator + differential mutants",
+        ref="DESIGN.md section 6 C02"),
+    "C04": dict(
+        text="Round trip print->parse->print on every accepted document: monitor on the real code (re-parse ok with empty "
+             "rest, equal canonical dump and PartialEq, identical second serialization) and tie against the model's printer "
+             "and parser. Kernel-checked so far: the quoting rule is faithful exactly unless a value holds both quote kinds, "
+             "the printer is a homomorphism on item lists, and the soundness half of the round trip (a complete re-parse "
+             "flattens to exactly the printed text). The completeness half `parseDoc (printDoc d) = ok (d, [])` is stated in "
+             "Thm/C04.lean and not yet proved (partial).",
+        note="Partial proof: the universally quantified round-trip theorem is open; what is decided for all inputs is the "
+             "listed lemmas; the round trip itself is established on the generated and mutated documents of each run only.",
+        technique="Lean 4 proof (partial) + differential correspondence of printer/parser + round-trip monitor",
+        ref="DESIGN.md section 6 C04"),
+    "C01": dict(
+        text="Generated abstract documents (feature mixer incl. DTD) in several renderings: the real parser must accept with "
+             "empty rest and dump exactly the items the abstract value denotes (independent python oracle), and agree with the "
+             "model. Kernel-checked so far: what a character reference denotes for every number, that the reported items are an "
+             "abstraction of one derivation tree spelling exactly the consumed text, determinism. The completeness statement "
+             "`parseDoc (render st d) = ok (denote d, [])` is stated and not yet proved (partial).",
+        note="Partial proof; raw view only so far (merged-text view pending). Oracle = tools/gen/xmlgen.py denote.",
+        technique="Lean 4 proof (partial) + translator + differential correspondence against model and denotation oracle",
+        ref="DESIGN.md section 6 C01"),
 }
 
 PENDING_REASON = "check not built yet (work in progress; see DESIGN.md section 10 build order)"
